@@ -470,6 +470,8 @@ func checkC09(c *Ctx, r *Report) {
 	aplExtentShared(c, r, "C09.R3.apl-extent", "for every prefix whose masked address ends in zero octets (10.1.0.0/24, any IPv6 network) Len() counts 1..15 octets too many; Truncate, which budgets with it, drops records from a reply that fits and sets TC")
 	r.rule("C09.R3.len-search-walk", 1, "compressionLenSearch visits the labels through NextLabel (escaped dots do not start labels)")
 	walkThroughNextLabel(c, r, "C09.R3.len-search-walk", "compressionLenSearch", "Truncate's budget registers suffixes at escaped dots that the packer never compresses against: the truncated reply is larger than the size asked for")
+	lenSearchKey(c, r, "C09.R3.len-search-key", "Truncate's budget is too small and the truncated reply exceeds the size asked for")
+	oneBudget(c, r, "C09.R1.one-budget")
 }
 
 // edgeDominatesAny: one of the If's edges edge-dominates target.
